@@ -15,39 +15,29 @@ class VariableBoundMaxPropagator(VariableBoundPropagator):
         raise NotImplementedError("max")
         
     def propagate(self):
-        # Obtain the max value from the
+        # Obtain the max value 
         max_v = self.max()
   
         range_l = self.target.domain.range_l
         if len(range_l) == 0:
             # Nothing left to trim
             return False
-        i=len(range_l)-1
-        
-#        print("Max: range_l=" + str(range_l) + " max_v=" + str(max_v))
+
+        must_propagate = False
 
         # Note: assume domain ranges are ordered
-        # Find the first interval where the minimum is less than the max
-        while i > 0:
-            if range_l[i][0] <= max_v:
-                break
-            else:
-                i -= 1
-            
-        must_propagate = False
-        if i >= 0:
-#            print("i: " + str(i) + " " + str(self.target.domain.range_l[i][0]))
-            if range_l[i][1] > max_v:
-                range_l[i][1] = max_v
-                must_propagate = True
-                
-            if i < len(range_l)-1:
-                # Need to trim off full range elements
-                must_propagate = True
-#                print("Removing domain element " + str(range_l[i+1]))
-                self.target.domain.range_l = range_l[:i+1]
-        else:
-#            print("ran off the end")
-            pass
+        # Drop the intervals that lie entirely above the maximum
+        i = len(range_l)-1
+        while i >= 0 and range_l[i][0] > max_v:
+            i -= 1
+        if i < len(range_l)-1:
+            range_l = range_l[:i+1]
+            self.target.domain.range_l = range_l
+            must_propagate = True
+
+        # Lower the upper bound of the last remaining interval
+        if len(range_l) > 0 and range_l[-1][1] > max_v:
+            range_l[-1][1] = max_v
+            must_propagate = True
             
         return must_propagate
